@@ -123,7 +123,8 @@ def diff(a, b, path="", out=None):
 
 class World:
     def __init__(self, mode, n_curves=2):
-        self.ps = proc.ProcSetup("non_ideal_non_isothermal_process", mode, "molar", None, 2, n_curves=n_curves, initial_permeances=True)
+        # curve points are given as mole fractions (the models convert them: any in-place conversion shows in the snapshot)
+        self.ps = proc.ProcSetup("non_ideal_non_isothermal_process", mode, "molar", None, 2, n_curves=n_curves, initial_permeances=True, curve_basis="molar")
         ps = self.ps
         c1, c2 = ps.mix.first_component, ps.mix.second_component
         exps = []
@@ -150,6 +151,9 @@ class World:
                 d.append(a.temperature.t != b.temperature.t)  # distinct experiment temperatures: the regression is determined
         for m in self.meas.data:
             d += [m.x.t >= 0, m.x.t <= 1, m.t.t > 273, m.t.t < 400, m.p.t >= 0]
+        for cv in ps.curves.diffusion_curves:
+            for c in cv.feed_compositions:
+                d += [c.p.t > 0, c.p.t < 1]
         return d
 
     def entries(self):
